@@ -2,3 +2,5 @@ import Proofs.C15
 import Proofs.C16
 import Proofs.C03
 import Proofs.C01
+import Proofs.C14
+import Proofs.C07Icu
